@@ -29,6 +29,49 @@
 #define SC_DECL__ , yyscan_t yyscanner
 #endif
 
+#if SIM_FLAVOR == SIM_CXX
+#define SC_
+#define SC__
+#include <istream>
+#include <streambuf>
+/* the lexer class of the scenario: the generated yylex() is a member of it (%option yyclass),
+ * the virtual hooks of yyFlexLexer are the seams */
+class SimLexer : public yyFlexLexer {
+public:
+	sim_inst *I;
+	explicit SimLexer(sim_inst *i) : yyFlexLexer((std::istream *) 0, (std::ostream *) 0), I(i) {}
+	int yylex();
+	int yywrap();
+	void exec_top(const sim_xop *x);
+	void common_op(const sim_xop *x);
+	FILE *in_file();
+protected:
+	int LexerInput(char *buf, int max_size);
+	void LexerOutput(const char *buf, int size) { (void) buf; (void) size; }
+	void LexerError(const char *msg) { sim_fatal(msg); }
+};
+static std::istream *sim_stream_of(FILE *f);
+#define yyecho() \
+	do { \
+		sim_enter(SIM_DEFAULT_RULE, 0, yytext, yyleng, yystart(), yylineno, yyatbol(), (void *) yy_current_buffer()); \
+		sim_leave(); \
+	} while (0)
+#define SIM_YYBEGIN(s) yybegin(s)
+#define SIM_YYSTART() yystart()
+#define SIM_ATBOL() yyatbol()
+#define SIM_SETBOL(v) yysetbol(v)
+#define SIM_SETINTERACTIVE(v) yy_set_interactive(v)
+#define SIM_LINENO_IN_ACTION yylineno
+#define SIM_TEXT yytext
+#define SIM_LENG yyleng
+#define SIM_CURBUF() ((void *) yy_current_buffer())
+#define SIM_UNPUT(c) yyunput(c)
+#define SIM_INPUT() yyinput()
+#define SIM_TERMINATE() yyterminate()
+#define SIM_NEWFILE(f) yyrestart(sim_stream_of(f))
+#define sim_common_op(x) this->common_op(x)
+#endif
+
 #if defined(SIM_READ_SYSCALL) && SIM_READ_SYSCALL
 /* -Cr: yyread() is `read(fileno(yyin), buf, n)`.  The scanner was generated with
  * %option nounistd, so both names are ours to define; the descriptor of a simulated
@@ -62,6 +105,7 @@
 #define SIM_INPUT() yyinput(SC_)
 #define SIM_YYIN yyin
 #define SIM_TERMINATE() yyterminate()
+#define SIM_NEWFILE(f) do { SIM_YYIN = (f); yyrestart(SIM_YYIN SC__); } while (0)
 #endif
 
 #if SIM_FLAVOR == SIM_C99
@@ -98,7 +142,7 @@ int yyread(char *buf, size_t max_size, yyscan_t yyscanner);
 #define SIM_CASE_STACK
 #endif
 
-#if SIM_FLAVOR == SIM_NR || SIM_FLAVOR == SIM_R
+#if SIM_FLAVOR == SIM_NR || SIM_FLAVOR == SIM_R || SIM_FLAVOR == SIM_CXX
 #if SIM_HAS_REJECT
 #define SIM_CASE_REJECT case SOP_REJECT: sim_leave(); REJECT;
 #else
@@ -159,7 +203,7 @@ static void sim_common_op(const sim_xop *x SC_DECL__);
 			case SOP_GET_STATE: sim_res_int("state", SIM_YYSTART()); break; \
 			case SOP_RETURN: sim_leave(); return (int) sim_x.a; \
 			case SOP_TERMINATE: sim_leave(); SIM_TERMINATE(); \
-			case SOP_NEWFILE: SIM_YYIN = sim_x.f; yyrestart(SIM_YYIN SC__); break; \
+			case SOP_NEWFILE: SIM_NEWFILE(sim_x.f); break; \
 			default: sim_common_op(&sim_x SC__); break; \
 			} \
 		} \
